@@ -166,7 +166,7 @@ def textOp (j : Json) : R Json := do
     let envL ← match fldOpt j "colorEnv" with
       | none => pure []
       | some v => listOf (fun kv => do let a ← kv.getArr?; pure ((← a[0]!.getStr?), (← a[1]!.getStr?))) v
-    pure (obj [("list", jstr (listText i)), ("listColor", jstr (listTextEnv (fun k => envL.lookup k) i)),
+    pure (obj [("usage", jstr (if (fldBool j "wantUsage").toOption == some true then usageText bin else "<any>")), ("list", jstr (listText i)), ("listColor", jstr (listTextEnv (fun k => envL.lookup k) i)),
                ("help", Json.arr (words.map fun w =>
                   let r := help bin i [w]
                   Json.arr #[jstr r.1, Json.num (JsonNumber.fromInt r.2)]).toArray)])
